@@ -3,9 +3,9 @@ against the same clause; here is the clause as callers see it."""
 from pyvc.contracts import contract
 
 contract("statham.schema.elements.base:Element.__call__",
-         requires="not is_np(value)",
-         returns="result is build(self, value)",
-         raises=[(("ValidationError", "TypeError"), "not sem(self, value)")],
-         ghost={"function": "build(self, value)"},
+         requires="True",
+         returns="result is (dflt(self) if is_np(value) else build(self, value))",
+         raises=[(("ValidationError", "TypeError"), "not is_np(value) and not sem(self, value)")],
+         ghost={"function": "dflt(self) if is_np(value) else build(self, value)"},
          props=["C01", "C04", "C10"], trusted=True,
          note="callers' view: returns build(self,v) iff sem(self,v), else ValidationError/TypeError")
